@@ -35,7 +35,8 @@ import deep.logging
 from deep.api.tracepoint.eventsnapshot import WATCH_SOURCE_CAPTURE
 from deep.logging import logging
 from deep.api.tracepoint import WatchResult, Variable
-from deep.processor.variable_set_processor import VariableSetProcessor, VariableCacheProvider
+from deep.processor.variable_set_processor import VariableSetProcessor, VariableCacheProvider, \
+    VariableProcessorConfig
 from deep.utils import str2bool
 
 if TYPE_CHECKING:
@@ -58,6 +59,7 @@ class ActionContext(abc.ABC):
         self._triggered = False
         # each action collects into its own variable set, so the results of one action cannot affect another
         self.var_cache = VariableCacheProvider()
+        self._collection_config = VariableProcessorConfig()
 
     def __enter__(self):
         """Enter and open the context."""
@@ -76,7 +78,7 @@ class ActionContext(abc.ABC):
         :param watch: The watch expression to evaluate.
         :return: Tuple with WatchResult, collected variables, and the log string for the expression
         """
-        var_processor = VariableSetProcessor({}, self.var_cache)
+        var_processor = VariableSetProcessor({}, self.var_cache, self.collection_config)
 
         try:
             result = self.trigger_context.evaluate_expression(watch)
@@ -98,10 +100,19 @@ class ActionContext(abc.ABC):
         :param variable: the value to process
         :return: Tuple with WatchResult, collected variables, and the log string for the expression
         """
-        var_processor = VariableSetProcessor({}, self.var_cache)
+        var_processor = VariableSetProcessor({}, self.var_cache, self.collection_config)
         variable_id, log_str = var_processor.process_variable(name, variable)
 
         return WatchResult(WATCH_SOURCE_CAPTURE, name, variable_id), var_processor.var_lookup, log_str
+
+    @property
+    def collection_config(self) -> VariableProcessorConfig:
+        """The variable processing config, used when collecting the results of expressions."""
+        return self._collection_config
+
+    @collection_config.setter
+    def collection_config(self, config: VariableProcessorConfig):
+        self._collection_config = config
 
     def process(self):
         """Process the action."""
